@@ -574,6 +574,17 @@ impl ChallengeInput for BlindedSignature {
     }
 }
 
+/// Verification hooks (only with the `verif-hooks` feature).
+#[cfg(feature = "verif-hooks")]
+pub mod verif_hooks {
+    use super::*;
+
+    /// The commitment a [`VerifiedBlindedMessage`] would be blind-signed on.
+    pub fn commitment_of(vbm: &VerifiedBlindedMessage) -> Commitment<G1Projective> {
+        vbm.0
+    }
+}
+
 #[cfg(test)]
 mod test {
     use super::*;
